@@ -101,7 +101,9 @@ class RefinementMonitor:
                     self.v("foreign_bit_changed", ev, side, pixel=[r, c], before=int(m0[r, c]), after=int(m1[r, c]))
                     return
                 pos = (x0 - gmin) * subpix
-                on_sample = abs(pos - round(pos)) < 1e-6 and 0 <= round(pos) < nd
+                # exactly on a sampled disparity (float32 values of samples are exact): a value that is off by 1e-8
+                # (left by a bilateral filter) is an off-sample input for the implementation, which truncates it
+                on_sample = pos == round(pos) and 0 <= round(pos) < nd
                 if x1 < gmin - 1e-6 or x1 > gmax + 1e-6:
                     if on_sample or not reported_offsample:
                         self.v("outside_global_interval", ev, side, pixel=[r, c], before=x0, after=x1,
